@@ -333,6 +333,7 @@ async fn run_rs(f: &std::collections::HashMap<String, String>, ops: &str) -> Str
             let (sd_tx, sd_rx) = watch::channel(());
             let storage = Arc::new(FileStorageEngine::new(storage_dir(dir.path())).unwrap());
             let sm = Arc::new(FileStateMachine::new(sm_dir(dir.path())).await.unwrap());
+            let probe = sm.clone();
             let built = NodeBuilder::from_node_config(cfg.clone(), sd_rx).storage_engine(storage).state_machine(sm).build().await;
             let built = match built {
                 Ok(b) => b,
@@ -341,7 +342,14 @@ async fn run_rs(f: &std::collections::HashMap<String, String>, ops: &str) -> Str
             let mem = built.verif_built_membership().unwrap();
             let _ = sd_tx.send(());
             drop(built);
-            tokio::time::sleep(Duration::from_millis(30)).await;
+            // wait until every task of the built node has let go of the state machine, so that only one
+            // FileStateMachine instance is alive on the directory at any time (its Drop persists last_applied)
+            for _ in 0..2000 {
+                if Arc::strong_count(&probe) == 1 { break; }
+                tokio::time::sleep(Duration::from_millis(5)).await;
+            }
+            if Arc::strong_count(&probe) != 1 { return "built-node-did-not-stop".into(); }
+            drop(probe);
             restarts += 1;
             // continue on harness-composed components around the built node's membership
             pr = Some(compose(self_id, &cfg, dir.path(), Some(mem)).await);
@@ -505,7 +513,10 @@ async fn run(case: &str) -> String {
     }
 }
 
-fn exec(case: &str) -> String { rt().block_on(run(case)) }
+fn exec(case: &str) -> String {
+    let _gag = StdoutGag::new();
+    rt().block_on(run(case))
+}
 
 // ------------------------------------------------------------------------------------ generator
 fn gen_nodes(r: &mut Rng, nv: u64, nl: u64, odd_status: bool) -> (Vec<String>, Vec<u32>, Vec<u32>) {
@@ -539,7 +550,8 @@ fn gen_change(r: &mut Rng, maxid: u32, malformed: bool) -> String {
 }
 
 fn gen_view(r: &mut Rng, malformed: bool) -> String {
-    let (nodes, _, _) = gen_nodes(r, 1 + r.below(4), r.below(3), malformed);
+    let (a, b) = (1 + r.below(4), r.below(3));
+    let (nodes, _, _) = gen_nodes(r, a, b, malformed);
     let n = nodes.len() as u32;
     let self_id = 1 + r.below(n as u64) as u32;
     let mut ops = vec![];
@@ -580,7 +592,8 @@ fn gen_cl(r: &mut Rng) -> String {
 }
 
 fn gen_rs(r: &mut Rng) -> String {
-    let (nodes, _, _) = gen_nodes(r, 1 + r.below(3), r.below(3), false);
+    let (a, b) = (1 + r.below(3), r.below(3));
+    let (nodes, _, _) = gen_nodes(r, a, b, false);
     let n = nodes.len() as u32;
     let self_id = 1 + r.below(n as u64) as u32;
     let mut ops = vec![];
@@ -599,7 +612,8 @@ fn gen_rs(r: &mut Rng) -> String {
 
 fn gen_lr(r: &mut Rng) -> String {
     let nv = 1 + r.below(3);
-    let (mut nodes, voters, learners) = gen_nodes(r, nv, 1 + r.below(2), false);
+    let nl = 1 + r.below(2);
+    let (mut nodes, voters, learners) = gen_nodes(r, nv, nl, false);
     let self_id = learners[0];
     let _ = &mut nodes;
     let term = 1 + r.below(4);
@@ -627,7 +641,8 @@ fn gen_lr(r: &mut Rng) -> String {
 
 fn gen_jn(r: &mut Rng) -> String {
     let nv = 1 + r.below(3);
-    let (nodes, voters, learners) = gen_nodes(r, nv, r.below(2), false);
+    let nl = r.below(2);
+    let (nodes, voters, learners) = gen_nodes(r, nv, nl, false);
     let n = (voters.len() + learners.len()) as u32;
     let term = 1 + r.below(3);
     let loglen = r.below(3);
@@ -650,16 +665,14 @@ fn gen_jn(r: &mut Rng) -> String {
 fn generate(r: &mut Rng, n: usize, tier: &str) -> Vec<String> {
     let mut out = vec![];
     // restart and join cases touch the file system / spawn tasks: keep their share small in quick tier
-    let heavy_every = if tier == "thorough" { 6 } else { 12 };
+    let _ = tier;
     for i in 0..n {
-        let c = match i % heavy_every {
-            0 => gen_rs(r),
-            1 => gen_jn(r),
-            2 | 3 => gen_cl(r),
-            4 => gen_lr(r),
-            5 => gen_view(r, true),
-            6 | 7 if heavy_every == 12 => gen_cl(r),
-            8 if heavy_every == 12 => gen_lr(r),
+        let c = match i % 12 {
+            0 | 1 => gen_rs(r),
+            2 => gen_jn(r),
+            3 | 4 | 5 | 6 => gen_cl(r),
+            7 | 8 => gen_lr(r),
+            9 => gen_view(r, true),
             _ => gen_view(r, false),
         };
         out.push(c);
